@@ -19,6 +19,7 @@ VERIF = sut.VERIF
 OUT = os.environ.get("VERIF_OUT_DIR") or VERIF
 CASE_TIMEOUT_S = int(os.environ.get("VERIF_CASE_TIMEOUT", "60"))
 MAX_CONFIRM = 6
+MAX_TRIES = 40
 WORKERS = int(os.environ.get("VERIF_WORKERS", str(min(16, os.cpu_count() or 4))))
 
 _mod = None
@@ -207,7 +208,18 @@ def run_check(pid, tier="quick", seed=0):
 
     violations = []
     rc = 0
-    for i in unexplained[:MAX_CONFIRM]:
+    leaks = []
+    tried = 0
+    # candidates for confirmation: the first few (simplest-first order) and then evenly spread over the failing cases, so that one
+    # family of non-reproducible in-worker failures cannot use up the budget
+    cand = list(unexplained[:MAX_CONFIRM])
+    if len(unexplained) > MAX_CONFIRM:
+        step = max(1, len(unexplained) // (MAX_TRIES - MAX_CONFIRM))
+        cand += [i for i in unexplained[MAX_CONFIRM::step] if i not in cand]
+    for i in cand:
+        if len(violations) >= MAX_CONFIRM or tried >= MAX_TRIES:
+            break
+        tried += 1
         # confirmation rule: must fail identically in a brand-new interpreter
         r2 = fresh_eval(mod.ID, cases[i], root)
         d1, d2 = results[i].get("diffs"), r2.get("diffs")
@@ -222,13 +234,21 @@ def run_check(pid, tier="quick", seed=0):
             path = write_replay(mod, cases[i], r2, tier, seed, note)
             violations.append((i, path))
         else:
-            msg = "case failed in pool worker but not in a fresh interpreter (state leaked between cases?)"
+            leaks.append(i)
+    if leaks and not violations:
+        # failed inside a long-lived worker (which evaluated other cases before) but not in a brand-new interpreter
+        msg = "case failed in pool worker but not in a fresh interpreter (state leaked between cases?)"
+        for i in leaks[:3]:
             if getattr(mod, "LEAK_IS_VIOLATION", False):
-                path = write_replay(mod, cases[i], results[i], tier, seed, msg)
+                path = write_replay(mod, cases[i], results[i], tier, seed, msg + "; replaying this case alone in a new process does not reproduce it: "
+                                    "the worker had parsed other inputs before")
                 violations.append((i, path))
             else:
                 print("HARNESS-ERROR property=%s %s case=%s" % (mod.ID, msg, json.dumps(cases[i])[:300]))
                 rc = 2
+    elif leaks:
+        print("note: %d further failing case(s) were not reproducible in a fresh interpreter (state carried over inside a worker); "
+              "the reported violation(s) are" % len(leaks))
 
     for (feat, sym), idxs in sorted(known_hits.items()):
         ent = next(e for e in findings if e["feature"] == feat and e["symptom"] == sym)
